@@ -210,6 +210,19 @@ class Interp:
     def op_gen(self, gen):  # replay marker
         pass
 
+    def op_backpressure(self, n):
+        """The next connection stops taking data after its n-th write (the console has stopped reading)."""
+        self.rig.net.pause_on_accept.clear()
+        if n:
+            self.rig.net.pause_on_accept.append(n)
+        else:
+            for tr in self.rig.net.conns:
+                tr.pause_after = None
+            cur = self.rig.net.current
+            if cur is not None and cur.write_paused:
+                cur.resume_writing()
+            self.rig.loop.settle()
+
     def op_hook(self, up, down):
         self.hook = {"up": up, "down": down}
 
@@ -223,6 +236,17 @@ class Interp:
         if later:
             return later[0], later[0] >= a["expiry"]
         return None, self.rig.loop.time() >= a["expiry"]
+
+    def _paused_throughout(self, cid, t0, t1) -> bool:
+        start = None
+        for e in self.rig.net.log:
+            if e[1] == "pause" and e[2] == cid:
+                start = e[0]
+            elif e[1] == "resume" and e[2] == cid and start is not None:
+                if start <= t0 and t1 <= e[0]:
+                    return True
+                start = None
+        return start is not None and start <= t0
 
     def check(self):
         net = self.rig.net
@@ -269,6 +293,8 @@ class Interp:
                                                      f"is to={to:#x} from={frm:#x} type={mtype:#x} data={data.hex()}")
             if pid is not None and fr.pid != pid:
                 self.bad("header-pid", f"frame #{i}: packet id {fr.pid} != submitted {pid}")
+            if due is not None and t_tx > due and self._paused_throughout(cid, due, t_tx):
+                continue  # the console exerted back-pressure from the instant the message was due until it was written
             if due is None or t_tx != due:
                 self.bad("late-or-early", f"message #{idx} accepted at t={a['t']} (connected={a['connected']}) was "
                                           f"written at t={t_tx}, expected at t={due}")
@@ -395,6 +421,38 @@ def make_machine(gen: int, stats: Stats):
                 self._do(["send", [it]])
             self._do(["advance_free", 3.0])
 
+        @rule(how=st.sampled_from(["eof", "reset"]), n=st.integers(1, 9), lat=st.sampled_from([0.0, 0.125]),
+              batch1=st.lists(_send_item(gen), min_size=2, max_size=6), batch2=st.lists(_send_item(gen), min_size=1, max_size=3),
+              batch3=st.lists(_send_item(gen), min_size=0, max_size=2))
+        def outage_then_backpressure(self, how, n, lat, batch1, batch2, batch3):
+            """Link loss; messages pile up; the new connection takes n writes and then exerts back-pressure, so the
+            flush of the backlog is suspended in drain(); further sends arrive from other tasks meanwhile; then the
+            console reads again."""
+            long_lived = lambda b: [[kk, p, ("idem" if isinstance(pol, str) else [pol[0], 30.0]), h] for kk, p, pol, h in b]
+            now = self.x.rig.loop.time()
+            if self.dead or self.x.rig.net.script or any(a["expiry"] < now + 20.0 for a in self.x.pending()):
+                # only long-lived messages may wait behind the back-pressure (a message that expires while the flush is
+                # suspended may legitimately be dropped: not what this rule is about)
+                return
+            self._do(["backpressure", n])
+            self._do(["script", [["accept", lat]]])
+            self._do(["down", how])
+            if self.x.connected:
+                self._do(["backpressure", 0])
+                return
+            room = 10 - len(self.x.pending())
+            if room > 0:
+                self._do(["send", long_lived(batch1)[:room]])
+            self._do(["advance", lat + 0.125])
+            cur = self.x.rig.net.current
+            if cur is not None and cur.write_paused:
+                self.x.nt.add("flush-suspended-by-backpressure")
+                self._do(["send", long_lived(batch2)])
+                if batch3:
+                    self._do(["send", long_lived(batch3)])
+            self._do(["resume"])
+            self._do(["backpressure", 0])
+
         @rule(up=st.lists(_send_item(gen), max_size=2), down=st.lists(_send_item(gen), max_size=3))
         def connection_subscriber(self, up, down):
             """From now on a connection subscriber submits `up` whenever the link comes up and `down` (long-lived)
@@ -477,7 +535,8 @@ def shards(tier: str):
 
 def floors(tier: str):
     return {"multi-pending-outage": 30, "same-instant-batch": 60, "wrap-256": 2, "expired-among-pending": 30,
-            "sent-from-connection-subscriber:up": 40, "sent-from-connection-subscriber:down": 40}
+            "sent-from-connection-subscriber:up": 40, "sent-from-connection-subscriber:down": 40,
+            "flush-suspended-by-backpressure": 40}
 
 
 def run_shard(spec, seed: int, tier: str):
